@@ -59,6 +59,11 @@ def cases(tier, seed):
                 for agg in S.AGG_LISTS_H:
                     for pct, votes in ((100, "large"), (50, "small")):
                         out.append({"setup": setup, "office": "H", "district": district, "county": county, "pct": pct, "votes": votes, "agg": agg, "base": "plain", "seed": seed})
+    # a state with a single (at-large) district in the baseline; the unexpected unit's id names that district or another one
+    for setup in ("np1", "ga1", "bs1"):
+        for district in ("1", "2"):
+            for agg in S.AGG_LISTS_H:
+                out.append({"setup": setup, "office": "H", "district": district, "county": "AAc0", "pct": 100, "votes": "large", "agg": agg, "base": "plain", "atlarge": True, "seed": seed})
     return out
 
 
@@ -108,6 +113,11 @@ def evaluate(case):
     base_units = E.background(case["seed"], office, 24 if office == "H" else 16, "AA2", partial=0 if case["base"] == "complete" else 3)
     if case["base"] == "complete":
         cov["pairs_without_outstanding_units"] += 1
+    if case.get("atlarge"):
+        for i, u in enumerate(base_units):
+            u["district"] = "1"
+            u["id"] = f"1_{u['county']}_a{i}"
+        cov["at_large_state_pairs"] += 1
     if case["base"] == "probes":
         base_units += [E.make_probe(case["seed"], 0, "nonrep_partial", "pop0", office, weights=w), E.make_probe(case["seed"], 1, "zero_baseline", "pop1", office, weights=w), E.make_probe(case["seed"], 2, "unexpected", "newcounty", office, weights=w)]
     d, g, t = VOTES[case["votes"]]
@@ -214,4 +224,4 @@ def evaluate(case):
     return {"violations": V, "cov": dict(cov), "outcome": sha({k: v["rows"] for k, v in tb.items()})[:16], "nontrivial": True, "transitions": 2}
 
 
-REQUIRED_COUNTERS = {"new_group_rows": 100, "existing_group_rows": 100, "levels_not_attributable": 50, "reused_feed_pairs": 6, "pairs_without_outstanding_units": 50}
+REQUIRED_COUNTERS = {"new_group_rows": 100, "existing_group_rows": 100, "levels_not_attributable": 50, "reused_feed_pairs": 6, "pairs_without_outstanding_units": 50, "at_large_state_pairs": 10}
